@@ -1048,6 +1048,15 @@ func (db *DB) reWriteData(tx *Tx, mergedFID int64, pendingMergeEntries []*Entry)
 		tx.Rollback()
 		return err
 	}
+	// The previous active file is sealed from here on: release its handle
+	// (descriptor or mapping) the way a rotation does, or every merged file
+	// with live records leaks one.
+	if prev := db.ActiveFile; prev != nil {
+		if !db.opt.SyncEnable && db.opt.RWMode == MMap {
+			prev.rwManager.Sync()
+		}
+		prev.rwManager.Close()
+	}
 	db.ActiveFile = dataFile
 	db.MaxFileID++
 	db.ActiveFile.fileID = db.MaxFileID
